@@ -23,7 +23,7 @@ use revm::primitives::{
     address, AccountInfo, Address, Bytecode, Bytes, EVMError, ExecutionResult, HandlerCfg, SpecId,
     TxKind, B256, U256,
 };
-use revm::{DatabaseRef, Evm};
+use revm::{DatabaseRef, Evm, Handler};
 use serde_json::{json, Value};
 
 type TheEvm = Evm<'static, (), CacheDB<EmptyDB>>;
@@ -145,10 +145,13 @@ impl OpFees {
         w[24..32].copy_from_slice(&u(of, "c").to_be_bytes());
         put(8, U256::from_be_bytes(w));
 
-        let mut evm: TheEvm = Evm::builder()
-            .with_db(db)
-            .with_handler_cfg(HandlerCfg::new_with_optimism(spec, true))
-            .build();
+        // reward = false: the only public way to disable beneficiary rewards (property C22)
+        let reward = cfg.get("reward").and_then(|v| v.as_bool()).unwrap_or(true);
+        let mut evm: TheEvm = if reward {
+            Evm::builder().with_db(db).with_handler_cfg(HandlerCfg::new_with_optimism(spec, true)).build()
+        } else {
+            Evm::builder().with_db(db).with_handler(Handler::optimism_with_spec(spec, false)).build()
+        };
         {
             let b = &mut evm.context.evm.env.block;
             b.coinbase = COINBASE;
